@@ -113,11 +113,11 @@ func readCSVRows(filename string, topN uint) (rows [][]string, err error) {
 	defer f.Close()
 
 	r := csv.NewReader(f)
+	// If FieldsPerRecord is negative, records may have a variable number of fields.
+	r.FieldsPerRecord = -1
 
 	// topN: 0 means read all rows
 	if topN == 0 {
-		// If FieldsPerRecord is negative, records may have a variable number of fields.
-		r.FieldsPerRecord = -1
 		return r.ReadAll()
 	}
 
